@@ -171,3 +171,36 @@ Example C07_ex_bsid_rejected :
   fst (compressBegin cctx_zero (Some (mkPrefs 8 1 0 0 0 0 9 0 0)) (UsingCDict [1; 2; 3])) = Err FC_ERR_maxBlockSize_invalid /\
   compressFrame ex_blk ex_content (Some (mkPrefs 3 0 0 0 0 0 0 0 0)) = Err FC_ERR_maxBlockSize_invalid.
 Proof. vm_compute. repeat split; reflexivity. Qed.
+
+(* ---- the block-compressor hypothesis DISCHARGED for independent blocks without dictionary (Proofs/BlkInst.v): see
+   Properties_C03.v.  The frame produced by the LZ4F model with the block-compressor MODELS plugged in is conformant:
+   every block is strictly valid, sizes and checksums are as the frame format prescribes. *)
+From LZ4V Require Import Model.FastApi Model.HcMidApi Model.HcChainApi Model.HcOptApi.
+From LZ4V Require Import Proofs.BlkInst Proofs.BlkFrameInst.
+
+Theorem C07_frame_conformant_indep_discharged : forall level sf sm sh, states_ok sf sm sh ->
+  forall c0 po ms F X,
+  prefs_opt_ok po -> uncompressed_only_if_independent po ms -> len X < U64 ->
+  p_level (eff_prefs po) = level -> p_blockMode (eff_prefs po) = FC_blockIndependent ->
+  session (blk_indep level sf sm sh) c0 po NoDict ms = Some (F, X) ->
+  exists maxb bl,
+    let p := eff_prefs po in
+    4 <= p_bsid p <= 7 /\ bsid_size (p_bsid p) = Some maxb /\
+    F = header_bytes (desc_of p) ++ enc_blocks (p_bcrc p =? 1) bl ++ le_bytes 4 0
+        ++ (if p_ccrc p =? 1 then le_bytes 4 (xxh32 0 X) else []) /\
+    X = contents bl /\
+    chain strict_valid (p_blockMode p =? 1) (dict_of NoDict) maxb [] bl /\
+    (p_contentSize p <> 0 -> p_contentSize p = len X) /\
+    frame_audit strict_valid (dict_of NoDict) F = Some (desc_of p, X, [], Z.of_nat (length bl)) /\
+    frame_decode strict_valid false (dict_of NoDict) F = Some (X, []).
+Proof. exact c07_conformant_indep. Qed.
+Print Assumptions C07_frame_conformant_indep_discharged.
+
+Example C07_indep_discharged_run :
+  let ops := [MUpdate (repeat 97 40 ++ [1;2;3;4;5;6;7;8]); MFlush; MUpdate (concat (repeat [5;6;7;8;9] 12))] in
+  let run := fun l => match session (blk_indep l (fun _ => ctx_init) (fun _ => hc_init) (fun _ => cc_init)) cctx_zero
+                                     (Some (mkPrefs 4 1 1 0 0 1 l 1 0)) NoDict ops with
+                      | Some (F, X) => (length F, match frame_decode strict_valid false [] F with Some (Y, []) => Z.of_nat (length Y) | _ => -1 end)
+                      | None => (0%nat, -1) end in
+  (run 0, run 2, run 9, run 12) = ((60%nat, 108), (60%nat, 108), (60%nat, 108), (60%nat, 108)).
+Proof. vm_compute. reflexivity. Qed.
